@@ -334,7 +334,10 @@ def ev_top(e, tr, integral=None):
         t = pick(e)
         return integral(t, e[1])
     if op in ("T", "t0", "tf"):
-        t = tr["main"] if isinstance(tr, dict) else tr
+        if isinstance(tr, dict):
+            t = tr[e[1]] if len(e) > 1 and e[1] is not None else tr["main"]
+        else:
+            t = tr
         return {"T": t.T, "t0": t.t0, "tf": t.t0 + t.T}[op]
     if op == "sym":
         t = tr["main"] if isinstance(tr, dict) else tr
